@@ -108,7 +108,7 @@ fn method_call_regex() -> &'static Pattern {
 
 fn function_binding_regex() -> &'static Pattern {
     FUNCTION_BINDING_REGEX.get_or_init(|| {
-        Pattern::new(r#"(\w+)\s*\(\s*(.+?)?\s*\)"#).expect("Invalid function binding regex")
+        Pattern::new(r#"(\w+)\s*\(\s*(.+?)?\s*\)$"#).expect("Invalid function binding regex")
     })
 }
 
